@@ -18,7 +18,15 @@ var binTok = map[string]token.Token{
 	"&&": token.LAND, "||": token.LOR,
 }
 
-func (x *fx) evalBool(e *Expr, env *specEnv) string {
+func (x *fx) evalBool(e *Expr, env *specEnv) (res string) {
+	defer func() {
+		if r := recover(); r != nil {
+			if se, ok := r.(specErr); ok && !strings.Contains(string(se), " [in clause: ") {
+				panic(specErr(string(se) + " [in clause: " + e.String() + "]"))
+			}
+			panic(r)
+		}
+	}()
 	v := x.eval(e, env)
 	if !isBool(v.T) {
 		panic(specErr(fmt.Sprintf("expression %s is not boolean (type %s)", e, v.T)))
@@ -153,7 +161,7 @@ func (x *fx) eval(e *Expr, env *specEnv) *Val {
 				}
 			}
 		}
-		panic(specErr("unbound name " + e.Name + x.dbgNames()))
+		panic(specErr("unbound name " + e.Name))
 	case "old":
 		if env.old == nil {
 			return x.eval(e.Args[0], env)
